@@ -170,4 +170,24 @@ PROPS = {
         trusted_base=["reflect-based oracle for template semantics (harness/c19.go)"],
         assumptions=["template generation avoids zero map values and NaN/Inf/-0 (not representable / documented no-ops)"],
     ),
+    "C01": dict(
+        lean_modules=["Enc.Props.C01"],
+        variants=V_DEFAULT, areas=["json.encoder", "json.escapeIndex", "json.formatInteger", "json.appendInt", "json.appendUint", "json.constructCodec",
+                                   "json.appendStructFields", "json.emptyFuncOf", "json.inlined", "json.constructMapCodec", "json.Marshal", "json.Append",
+                                   "json.Encoder", "json.Escape", "json.AppendEscape", "json.appendCompactEscapeHTML", "json.constructStructType",
+                                   "json.below", "json.contains", "json.expand", "json.escapeByteRepr", "json.isValidTag", "json.intStringsAreSorted"],
+        allowed_native=["Enc.Lemmas.Json", "Lemmas.Json"],
+        main_theorem="Enc.Props.C01 (encodeString = appendString; formatInteger = decimal)",
+        rule="(a) scalar layer through the Lean driver: strings with an escapable byte at every offset 0..24 relative to the 8-byte "
+             "scan x {EscapeHTML on/off}, U+2028/9 and invalid UTF-8 forms, random strings; integers at every power of 2 and 10 "
+             "boundary; Escape/AppendEscape; Duration. (b) type-directed differential vs encoding/json: random types built with "
+             "reflect (all basic kinds, pointers, slices, arrays, maps with string/integer/TextMarshaler keys, interfaces holding "
+             "dynamic values and typed nils, structs with tags/omitempty/string/-/embedded value+pointer, >32 fields, Marshaler / "
+             "TextMarshaler with value and pointer receivers, Number, RawMessage, time.Time) x random values x {Marshal, Append, "
+             "MarshalIndent, Encoder x EscapeHTML x indent/prefix} x {by value, by pointer}, each case regenerated from its own "
+             "sub-seed in a supervised child process",
+        trusted_base=["encoding/json of the installed toolchain is the oracle (in-process)",
+                      "strconv.AppendFloat, base64, time formatting are shared parameters (called by both)"],
+        assumptions=["the struct-field resolution / codec construction layer is decided by differential testing, not by theorem"],
+    ),
 }
